@@ -51,6 +51,7 @@ pub fn output_tokens_for_impl(
                 opts: &attr.opts,
             }
             .analyze(input_fn.input_sig(), &mut generics_analyzer)
+            .map(|trait_fn| trait_fn.with_cfg_attrs_of(input_fn))
         })
         .collect::<syn::Result<Vec<_>>>()?;
     let sub_attributes = analyze_sub_attributes(&attrs);
